@@ -423,3 +423,379 @@ Example C11_source_conv_example :
                 [0; 0; 1; 1; 1; 1]%Q 1 (0, 0, 2, 2)%Q
      = [0; 1 # 2; 1; 1 # 2; 0; 0]%Q.
 Proof. split; reflexivity. Qed.
+
+(* ------------------------------------------------------------------------------------------------------
+   Bounded noise: the DETERMINISTIC core of the property's statistical clause (proofs in Proofs/HaarNoise.v,
+   definitions and constants in Spec/HaarNoise.v).  Exact rational arithmetic; any n; any step position t with
+   at least h bins on both sides at the half-width h considered; any step a -> b with D = |b - a| > 0; the
+   signal is ANY list within eps of the clean one in every bin (`noise_within eps clean sg`, i.e. noise e_i
+   with |e_i| <= eps, no distributional assumption).  Constants (scale = sqrt(2h) unweighted, sqrt(h/2)
+   weighted; only positivity is used):
+     noise_bound_u h eps scale  = 2 h eps / scale        how far noise moves any unweighted convolution value
+     peak_floor_u h D eps scale = (h D - 2 h eps) / scale   the least |conv| at the step position
+     drop_per_bin_u D eps scale = (D - 4 eps) / scale    the least drop of |conv| per bin away from t (within h)
+     noise_bound_w eps scale    = 2 eps scale            weighted (any positive weights)
+     peak_floor_w D eps scale   = (D - 2 eps) scale
+   The threshold  4 eps < D  is sharp: with D = 4 eps the noise e_(t-h) = e_(t+h) = eps, e_t = -eps makes
+   conv(t+1) = conv(t).
+   WHAT STAYS STATISTICAL (harness monitoring only, see harness/c11.py): Gaussian noise of sd 0.1 is not bounded
+   by D/4 (0.146 for the +0.585 gain, 0.25 for a one-copy loss): a 400..800-bin profile almost surely has a bin
+   beyond 2.5 sd, so the worst-case theorem does not cover the property's quantifier at sd 0.1 (it does cover
+   every draw whose largest deviation stays below D/4, e.g. virtually all draws at sd <= 0.03); the FDR
+   threshold is a function of normal-cdf p-values and of a noise estimate (an oracle here: theorems hold for
+   every threshold value in the stated range); cnvkit's Savitzky-Golay pre-smoothing of log2 and everything
+   about hmm-germline are outside the model. *)
+From CNV Require Import Spec.HaarNoise Proofs.HaarNoise.
+Local Open Scope Q_scope.
+
+(* 1. Linearity + triangle inequality over the two windows: for ANY clean signal c, noise within eps moves the
+   unweighted convolution at half-width h by at most 2 h eps / scale at EVERY position, mirrored edges included
+   (nothing extra is needed near the ends: the mirrored index always lands inside the array when h <= n). *)
+Theorem C11_noise_conv_bound : forall (eps : Q) (c sg : list Q) (h : Z) (scale : Q) (k : Z),
+  noise_within eps c sg -> 0 < scale ->
+  (1 <= h <= Z.of_nat (length c))%Z -> (0 <= k < Z.of_nat (length c))%Z ->
+  Qabs (qnth (haar_conv sg None h scale) k - qnth (haar_conv c None h scale) k) <= noise_bound_u h eps scale.
+Proof. exact noise_conv_bound_u. Qed.
+
+(* ... weighted, any positive weights: each of the two weighted window means moves by at most eps, so the
+   value moves by at most 2 eps scale (position 0 is 0 by definition in the code). *)
+Theorem C11_noise_conv_bound_weighted : forall (eps : Q) (c sg w : list Q) (h : Z) (scale : Q) (k : Z),
+  noise_within eps c sg -> length w = length c -> all_pos w -> 0 < scale ->
+  (1 <= h <= Z.of_nat (length c))%Z -> (1 <= k < Z.of_nat (length c))%Z ->
+  Qabs (qnth (haar_conv sg (Some w) h scale) k - qnth (haar_conv c (Some w) h scale) k) <= noise_bound_w eps scale.
+Proof. exact noise_conv_bound_w. Qed.
+
+(* 2. A step of height D = |b - a| with noise eps < D / 4, unweighted, at any half-width h with h bins on both
+   sides: the convolution stays within the noise bound of the clean tent (b - a) / scale * max(0, h - |k - t|);
+   |conv| at t is at least the peak floor, which exceeds the noise bound; beyond distance h only the noise term
+   is left; within distance h the value has dropped by at least (D - 4 eps) / scale per bin of distance from t
+   (the noise windows of neighbouring positions share all but four terms); hence the STRICT GLOBAL MAXIMUM of
+   |conv| is EXACTLY at t -- not merely within d bins of it. *)
+Theorem C11_noise_peak_location : forall (a b : Q) (t n : nat) (sg : list Q) (eps : Q) (h : Z) (scale : Q),
+  noise_within eps (step_signal a b t n) sg -> 0 < scale ->
+  (1 <= h <= Z.of_nat t)%Z -> (Z.of_nat t + h <= Z.of_nat n)%Z ->
+  4 * eps < Qabs (b - a) ->
+  let T := Z.of_nat t in
+  let N := Z.of_nat n in
+  let conv := haar_conv sg None h scale in
+  let B := noise_bound_u h eps scale in
+  let P := peak_floor_u h (Qabs (b - a)) eps scale in
+  let dl := drop_per_bin_u (Qabs (b - a)) eps scale in
+  (forall k, (0 <= k < N)%Z -> Qabs (qnth conv k - (b - a) / scale * tentQ h T k) <= B) /\
+  B < P /\ P <= Qabs (qnth conv T) /\
+  (forall k, (0 <= k < N)%Z -> (h <= Z.abs (k - T))%Z -> Qabs (qnth conv k) <= B) /\
+  (forall k, (0 <= k < N)%Z -> (Z.abs (k - T) <= h)%Z ->
+     Qabs (qnth conv k) + inject_Z (Z.abs (k - T)) * dl <= Qabs (qnth conv T)) /\
+  (forall k, (0 <= k < N)%Z -> k <> T -> Qabs (qnth conv k) < Qabs (qnth conv T)).
+Proof. exact noisy_step_conv. Qed.
+
+(* the "within d" form (tent slope against twice the noise bound): 4 h eps < d D with 1 <= d <= h makes every
+   position at distance >= d strictly smaller than the value at t.  Subsumed by the theorem above (the
+   hypothesis implies 4 eps < D); kept because it is the inequality one reads off the tent. *)
+Theorem C11_noise_peak_within_d : forall (a b : Q) (t n : nat) (sg : list Q) (eps : Q) (h : Z) (scale : Q) (d : Z),
+  noise_within eps (step_signal a b t n) sg -> 0 < scale ->
+  (1 <= h <= Z.of_nat t)%Z -> (Z.of_nat t + h <= Z.of_nat n)%Z ->
+  (1 <= d <= h)%Z -> 4 * inject_Z h * eps < inject_Z d * Qabs (b - a) ->
+  forall k, (0 <= k < Z.of_nat n)%Z -> (d <= Z.abs (k - Z.of_nat t))%Z ->
+    Qabs (qnth (haar_conv sg None h scale) k) < Qabs (qnth (haar_conv sg None h scale) (Z.of_nat t)).
+Proof. exact noisy_step_conv_d. Qed.
+
+(* 3. What FindLocalPeaks returns on that convolution (whatever the noise, eps < D / 4): t itself; every other
+   returned peak lies at distance >= h from t (inside the tent's support the noisy convolution is still strictly
+   monotone on both ramps, so the peak finder's plateau logic cannot fire there) and its value is at most the
+   noise bound.  The two bounds leave a gap: every threshold tau with  noise bound < tau <= peak floor  (or
+   <= |conv t|) keeps exactly [t]; every threshold above the noise bound keeps [t] or nothing. *)
+Theorem C11_noise_local_peaks : forall (a b : Q) (t n : nat) (sg : list Q) (eps : Q) (h : Z) (scale : Q),
+  noise_within eps (step_signal a b t n) sg -> 0 < scale ->
+  (1 <= h <= Z.of_nat t)%Z -> (Z.of_nat t + h <= Z.of_nat n)%Z -> (Z.of_nat t + 2 <= Z.of_nat n)%Z ->
+  4 * eps < Qabs (b - a) ->
+  let T := Z.of_nat t in
+  let conv := haar_conv sg None h scale in
+  let peaks := find_local_peaks conv in
+  let B := noise_bound_u h eps scale in
+  let P := peak_floor_u h (Qabs (b - a)) eps scale in
+  In T peaks /\
+  (forall x, In x peaks -> x <> T -> (h <= Z.abs (x - T))%Z /\ Qabs (qnth conv x) <= B) /\
+  B < P /\ P <= Qabs (qnth conv T) /\
+  (forall tau, B < tau -> tau <= P -> keep_ge conv tau peaks = [T]) /\
+  (forall tau, B < tau -> tau <= Qabs (qnth conv T) -> keep_ge conv tau peaks = [T]) /\
+  (forall tau, B < tau -> keep_ge conv tau peaks = [T] \/ keep_ge conv tau peaks = []).
+Proof. exact noisy_step_peaks. Qed.
+
+(* A FLAT profile (level c, any length, no weights or any positive weights) with noise within eps: every
+   convolution value at every half-width is within the noise bound (2 h eps / sqrt(2h) unweighted,
+   2 eps sqrt(h/2) weighted); so no peak survives any threshold above it; and if at each level 1..5 that has a
+   peak at all the FDR threshold exceeds the bound, haarSeg reports no breakpoint and one segment 0..n-1 whose
+   mean is within eps of c.  (With exactly ONE local peak at a level the code's threshold is 0 and that peak is
+   kept -- `if M < 2: return 0` -- which is why the hypothesis is about the threshold, not about the noise.) *)
+Theorem C11_noise_flat : forall (scale_u scale_w : Z -> Q) (pvals : Z -> list Q) (absorb : Z -> bool),
+  (forall h, 0 < scale_u h) -> (forall h, 0 < scale_w h) ->
+  forall (eps c : Q) (sg : list Q) (wt : option (list Q)) (q : Q),
+  flat_within eps c sg -> weights_ok sg wt -> sg <> [] ->
+  let n := Zlength_nat sg in
+  let r := haar_seg scale_u scale_w pvals absorb sg wt q in
+  (forall h k, (1 <= h)%Z -> (0 <= k < n)%Z ->
+     Qabs (qnth (conv_level scale_u scale_w sg wt h) k) <= level_noise_bound scale_u scale_w wt eps h) /\
+  (forall level tau, (0 <= level)%Z -> level_noise_bound scale_u scale_w wt eps (2 ^ level) < tau ->
+     keep_ge (conv_level scale_u scale_w sg wt (2 ^ level)) tau (level_peaks scale_u scale_w sg wt level) = []) /\
+  ((forall l, (1 <= l <= 5)%Z -> level_peaks scale_u scale_w sg wt l <> [] ->
+      level_noise_bound scale_u scale_w wt eps (2 ^ l) < level_thres scale_u scale_w pvals absorb sg wt q l) ->
+   hr_breaks r = [] /\ hr_start r = [0%Z] /\ hr_end r = [(n - 1)%Z] /\ hr_size r = [n] /\
+   exists m, hr_mean r = [m] /\ Qabs (m - c) <= eps).
+Proof. exact noisy_flat_all. Qed.
+
+(* The whole of haarSeg on a noisy step (unweighted; at least 32 bins on each side; eps < D / 4), with the FDR
+   threshold of each level as an oracle value `level_thres` (= FDRThres(convRes[peakLoc], q, sigma) of that
+   level): if at every level with two or more peaks the threshold exceeds the noise bound (a single peak has
+   threshold 0 and is t itself), and at some level it does not exceed |conv t|, the result is EXACTLY the one
+   breakpoint t -- 0 bins off, where the property allows 5 -- two segments 0..t-1 and t..n-1, and their means
+   are within eps of a and b (the property asks for 0.1). *)
+Theorem C11_noise_step_seg : forall (scale_u scale_w : Z -> Q) (pvals : Z -> list Q) (absorb : Z -> bool),
+  (forall h, 0 < scale_u h) ->
+  forall (a b : Q) (t n : nat) (sg : list Q) (eps q : Q),
+  noise_within eps (step_signal a b t n) sg -> (32 <= t)%nat -> (t + 32 <= n)%nat ->
+  4 * eps < Qabs (b - a) ->
+  (forall l, (1 <= l <= 5)%Z -> (2 <= length (level_peaks scale_u scale_w sg None l))%nat ->
+     noise_bound_u (2 ^ l) eps (scale_u (2 ^ l)%Z) < level_thres scale_u scale_w pvals absorb sg None q l) ->
+  (exists l, (1 <= l <= 5)%Z /\
+     level_thres scale_u scale_w pvals absorb sg None q l
+     <= Qabs (qnth (conv_level scale_u scale_w sg None (2 ^ l)) (Z.of_nat t))) ->
+  let r := haar_seg scale_u scale_w pvals absorb sg None q in
+  let T := Z.of_nat t in
+  let N := Z.of_nat n in
+  hr_breaks r = [T] /\ hr_start r = [0; T]%Z /\ hr_end r = [T - 1; N - 1]%Z /\ hr_size r = [T; N - T]%Z /\
+  exists m1 m2, hr_mean r = [m1; m2] /\ Qabs (m1 - a) <= eps /\ Qabs (m2 - b) <= eps.
+Proof. exact noisy_step_seg. Qed.
+
+(* one level of it: the add-on peaks of a level are [t] or nothing, and [t] when the threshold is <= |conv t| *)
+Theorem C11_noise_level_addon : forall (scale_u scale_w : Z -> Q) (pvals : Z -> list Q) (absorb : Z -> bool),
+  (forall h, 0 < scale_u h) ->
+  forall (a b : Q) (t n : nat) (sg : list Q) (eps q : Q) (level : Z),
+  noise_within eps (step_signal a b t n) sg -> (32 <= t)%nat -> (t + 32 <= n)%nat ->
+  4 * eps < Qabs (b - a) -> (1 <= level <= 5)%Z ->
+  ((2 <= length (level_peaks scale_u scale_w sg None level))%nat ->
+   noise_bound_u (2 ^ level) eps (scale_u (2 ^ level)%Z) < level_thres scale_u scale_w pvals absorb sg None q level) ->
+  (level_addon scale_u scale_w pvals absorb sg None q level = [Z.of_nat t] \/
+   level_addon scale_u scale_w pvals absorb sg None q level = []) /\
+  (level_thres scale_u scale_w pvals absorb sg None q level
+   <= Qabs (qnth (conv_level scale_u scale_w sg None (2 ^ level)) (Z.of_nat t)) ->
+   level_addon scale_u scale_w pvals absorb sg None q level = [Z.of_nat t]).
+Proof. exact noisy_step_addon. Qed.
+
+(* 4. The property's own numbers: a step between 0 and -1, +0.585 or +1 (height at least 0.585) with at least
+   100 bins on each side, and ANY noise with |e_i| <= 0.146 (4 * 0.146 < 0.585; for the one-copy loss and the
+   +1 gain the same holds up to 0.25 by C11_noise_peak_location): at every level 1..5 the strict maximum of
+   |conv| is at t, so a maximiser is within 5 bins (it is t); t is a local peak; every other local peak is at
+   least 2^level bins away, noise-sized, and strictly smaller.  Gaussian noise of sd 0.1 exceeds 0.146 in about
+   14 % of the bins, so this does NOT decide the property's quantifier at sd 0.1: that part stays sampled. *)
+Theorem C11_noise_property_numbers : forall (scale_u scale_w : Z -> Q),
+  (forall h, 0 < scale_u h) ->
+  forall (a b : Q) (t n : nat) (sg : list Q) (eps : Q) (level : Z),
+  noise_within eps (step_signal a b t n) sg -> (100 <= t)%nat -> (t + 100 <= n)%nat ->
+  585 # 1000 <= Qabs (b - a) -> eps <= 146 # 1000 -> (1 <= level <= 5)%Z ->
+  let T := Z.of_nat t in
+  let conv := conv_level scale_u scale_w sg None (2 ^ level) in
+  (forall k, (0 <= k < Z.of_nat n)%Z -> k <> T -> Qabs (qnth conv k) < Qabs (qnth conv T)) /\
+  (forall k, (0 <= k < Z.of_nat n)%Z -> Qabs (qnth conv T) <= Qabs (qnth conv k) -> (Z.abs (k - T) <= 5)%Z) /\
+  In T (level_peaks scale_u scale_w sg None level) /\
+  (forall x, In x (level_peaks scale_u scale_w sg None level) -> x <> T ->
+     (2 ^ level <= Z.abs (x - T))%Z /\
+     Qabs (qnth conv x) <= noise_bound_u (2 ^ level) eps (scale_u (2 ^ level)%Z) /\
+     Qabs (qnth conv x) < Qabs (qnth conv T)).
+Proof. exact noisy_step_property_numbers. Qed.
+
+(* Weighted step (ANY positive weights, e.g. the property's [0.5, 1]), absolute bounds: the noisy convolution is
+   within 2 eps scale of  scale (b - a) weighted_tent;  at t it is at least (D - 2 eps) scale; at distance >= h
+   at most 2 eps scale; with eps < D / 4 every position at distance >= h is strictly smaller than the value at
+   t, so the global maximum of |conv| lies within h - 1 bins of t (1 bin at level 1).  The sharper "exactly at
+   t" of the unweighted case is not proved for unequal weights (neighbouring weighted window means do not
+   differ by only four noise terms). *)
+Theorem C11_noise_step_weighted : forall (a b : Q) (t n : nat) (w sg : list Q) (eps : Q) (h : Z) (scale : Q),
+  noise_within eps (step_signal a b t n) sg -> length w = n -> all_pos w -> 0 < scale ->
+  (1 <= h <= Z.of_nat t)%Z -> (Z.of_nat t + h <= Z.of_nat n)%Z ->
+  let T := Z.of_nat t in
+  let N := Z.of_nat n in
+  let conv := haar_conv sg (Some w) h scale in
+  let B := noise_bound_w eps scale in
+  let P := peak_floor_w (Qabs (b - a)) eps scale in
+  (forall k, (0 <= k < N)%Z -> Qabs (qnth conv k - scale * (b - a) * weighted_tent w T h k) <= B) /\
+  P <= Qabs (qnth conv T) /\
+  (forall k, (0 <= k < N)%Z -> (h <= Z.abs (k - T))%Z -> Qabs (qnth conv k) <= B) /\
+  (4 * eps < Qabs (b - a) -> B < P /\
+     forall k, (0 <= k < N)%Z -> (h <= Z.abs (k - T))%Z -> Qabs (qnth conv k) < Qabs (qnth conv T)).
+Proof. exact noisy_step_level_w. Qed.
+
+(* FindLocalPeaks on ANY sequence: a strict signed extremum is always reported, and whatever is reported is a
+   strict signed extremum or the first position of a plateau of the right sign (candT, Proofs/HaarNoise.v). *)
+Theorem C11_local_peaks_sound : forall (l : list Q) (x : Z),
+  (In x (find_local_peaks l) ->
+   (1 <= x <= Z.of_nat (length l) - 2)%Z /\ candT (qnth l (x - 1)) (qnth l x) (qnth l (x + 1))) /\
+  ((1 <= x <= Z.of_nat (length l) - 2)%Z -> peakT (qnth l (x - 1)) (qnth l x) (qnth l (x + 1)) ->
+   In x (find_local_peaks l)).
+Proof. exact (fun l x => conj (peaks_cand l x) (peaks_has_peak l x)). Qed.
+
+(* hypotheses are satisfiable, with concrete numbers: a step 0 -> 1 at t = 80 of 160 bins with noise
+   +1/8, -1/8, +1/16 repeating (eps = 1/8 < 1/4); oracles: scale 2, no passing p-value, absorbed fallback
+   threshold (the code's regime for |peak| >= 1).  The thresholds lie in the gap at every level and the result
+   is the breakpoint 80 with means within 1/8. *)
+Example C11_noise_step_example :
+  let noise := map (fun i => match (i mod 3)%nat with O => 1 # 8 | S O => - (1 # 8) | _ => 1 # 16 end) (seq 0 160) in
+  let sg := map (fun p => Qred (fst p + snd p)) (combine (step_signal 0 1 80 160) noise) in
+  let su := fun _ : Z => 2 in
+  let pv := fun _ : Z => @nil Q in
+  let ab := fun _ : Z => true in
+  noise_within (1 # 8) (step_signal 0 1 80 160) sg /\
+  4 * (1 # 8) < Qabs (1 - 0) /\
+  (forall l, In l [1; 2; 3; 4; 5]%Z ->
+     noise_bound_u (2 ^ l) (1 # 8) 2 < level_thres su su pv ab sg None (1 # 10000) l /\
+     level_thres su su pv ab sg None (1 # 10000) l <= Qabs (qnth (conv_level su su sg None (2 ^ l)) 80)) /\
+  hr_breaks (haar_seg su su pv ab sg None (1 # 10000)) = [80%Z] /\
+  find_local_peaks (conv_level su su sg None 2) <> [80%Z].
+Proof.
+  cbv zeta. split; [apply noise_within_check; vm_compute; reflexivity|].
+  split; [vm_compute; reflexivity|]. split.
+  - intros l Hl. cbn [In] in Hl.
+    repeat (destruct Hl as [<-|Hl]; [split; vm_compute; first [reflexivity | discriminate]|]). destruct Hl.
+  - split; [vm_compute; reflexivity|vm_compute; discriminate].
+Qed.
+
+Example C11_noise_flat_example :
+  let sg := map (fun i => match (i mod 3)%nat with O => 1 # 8 | S O => - (1 # 8) | _ => 1 # 16 end) (seq 0 40) in
+  flat_within (1 # 8) 0 sg /\
+  Qabs (qnth (haar_conv sg None 4 2) 7) <= noise_bound_u 4 (1 # 8) 2 /\
+  noise_bound_u 4 (1 # 8) 2 == 1 # 2.
+Proof.
+  cbv zeta. split.
+  - intros i Hi. rewrite map_length, seq_length in Hi. assert (Hn : noise_within (1 # 8) (repeat 0 40)
+        (map (fun i => match (i mod 3)%nat with O => 1 # 8 | S O => - (1 # 8) | _ => 1 # 16 end) (seq 0 40))).
+    { apply noise_within_check; vm_compute; reflexivity. }
+    destruct Hn as [_ Hb]. rewrite repeat_length in Hb. specialize (Hb i Hi). unfold at_ in Hb at 2.
+    rewrite nth_repeat_lt in Hb by lia. exact Hb.
+  - split; vm_compute; first [reflexivity | discriminate].
+Qed.
+
+(* ------------------------------------------------------------------------------------------------------
+   The FDR threshold in its fallback branch.  FDRThres returns  x_sorted[0] + 1e-16  when no p-value passes
+   (`level_no_pass`: the scan over the sorted |peak values| finds no p_i <= (i+1)/M q) -- which is what the code
+   does for every step of height <= 1, i.e. on the whole domain of the property (the p-values are computed with
+   the noise estimate as the LOCATION of the normal cdf).  In binary64 the 1e-16 is absorbed exactly when the
+   largest |peak| is >= 1 (`absorb level`, supplied by the harness from the code's floats).  In that regime the
+   bounded-noise theorems need NO assumption on the size of the threshold. *)
+
+(* ANY signal, any weights: a level with two or more peaks, no passing p-value and an unabsorbed 1e-16 keeps no
+   peak; if every level that has a peak at all is of that kind, haarSeg reports no breakpoint. *)
+Theorem C11_fdr_fallback_level : forall (scale_u scale_w : Z -> Q) (pvals : Z -> list Q) (absorb : Z -> bool)
+    (sg : list Q) (wt : option (list Q)) (q : Q) (level : Z),
+  (2 <= length (level_peaks scale_u scale_w sg wt level))%nat ->
+  level_no_pass scale_u scale_w pvals sg wt q level -> absorb level = false ->
+  level_addon scale_u scale_w pvals absorb sg wt q level = [].
+Proof. exact fallback_addon_none. Qed.
+
+Theorem C11_fdr_fallback_none : forall (scale_u scale_w : Z -> Q) (pvals : Z -> list Q) (absorb : Z -> bool)
+    (sg : list Q) (wt : option (list Q)) (q : Q),
+  (forall l, (1 <= l <= 5)%Z -> level_peaks scale_u scale_w sg wt l <> [] ->
+     (2 <= length (level_peaks scale_u scale_w sg wt l))%nat /\
+     level_no_pass scale_u scale_w pvals sg wt q l /\ absorb l = false) ->
+  hr_breaks (haar_seg scale_u scale_w pvals absorb sg wt q) = [].
+Proof. exact fallback_no_breaks. Qed.
+
+(* the noisy step (eps < D / 4, unweighted, >= 32 bins per side) at one level in that regime: the add-on peaks
+   are exactly [t] when the 1e-16 is absorbed or t is the only peak, and nothing otherwise *)
+Theorem C11_noise_level_addon_fallback : forall (scale_u scale_w : Z -> Q) (pvals : Z -> list Q) (absorb : Z -> bool),
+  (forall h, 0 < scale_u h) ->
+  forall (a b : Q) (t n : nat) (sg : list Q) (eps q : Q) (level : Z),
+  noise_within eps (step_signal a b t n) sg -> (32 <= t)%nat -> (t + 32 <= n)%nat ->
+  4 * eps < Qabs (b - a) -> (1 <= level <= 5)%Z ->
+  ((2 <= length (level_peaks scale_u scale_w sg None level))%nat -> level_no_pass scale_u scale_w pvals sg None q level) ->
+  level_addon scale_u scale_w pvals absorb sg None q level =
+  (if (length (level_peaks scale_u scale_w sg None level) <? 2)%nat || absorb level then [Z.of_nat t] else []).
+Proof. exact noisy_step_addon_fallback. Qed.
+
+(* ... hence the whole of haarSeg: exactly the breakpoint t (means within eps of a and b) as soon as one level
+   absorbs the 1e-16 or has t as its only peak; no breakpoint when no level does.  The FDR procedure enters only
+   through "no p-value passes"; nothing is assumed about the value of the threshold. *)
+Theorem C11_noise_step_seg_fallback : forall (scale_u scale_w : Z -> Q) (pvals : Z -> list Q) (absorb : Z -> bool),
+  (forall h, 0 < scale_u h) ->
+  forall (a b : Q) (t n : nat) (sg : list Q) (eps q : Q),
+  noise_within eps (step_signal a b t n) sg -> (32 <= t)%nat -> (t + 32 <= n)%nat ->
+  4 * eps < Qabs (b - a) ->
+  (forall l, (1 <= l <= 5)%Z -> (2 <= length (level_peaks scale_u scale_w sg None l))%nat ->
+     level_no_pass scale_u scale_w pvals sg None q l) ->
+  let r := haar_seg scale_u scale_w pvals absorb sg None q in
+  let T := Z.of_nat t in
+  let N := Z.of_nat n in
+  ((exists l, (1 <= l <= 5)%Z /\
+      ((length (level_peaks scale_u scale_w sg None l) < 2)%nat \/ absorb l = true)) ->
+   hr_breaks r = [T] /\ hr_start r = [0; T]%Z /\ hr_end r = [T - 1; N - 1]%Z /\ hr_size r = [T; N - T]%Z /\
+   exists m1 m2, hr_mean r = [m1; m2] /\ Qabs (m1 - a) <= eps /\ Qabs (m2 - b) <= eps) /\
+  ((forall l, (1 <= l <= 5)%Z ->
+      (2 <= length (level_peaks scale_u scale_w sg None l))%nat /\ absorb l = false) ->
+   hr_breaks r = []).
+Proof. exact noisy_step_seg_fallback. Qed.
+
+(* a flat profile with noise within eps (any positive weights or none) in that regime: one segment 0..n-1 whose
+   mean is within eps of the level *)
+Theorem C11_noise_flat_fallback : forall (scale_u scale_w : Z -> Q) (pvals : Z -> list Q) (absorb : Z -> bool)
+    (eps c : Q) (sg : list Q) (wt : option (list Q)) (q : Q),
+  flat_within eps c sg -> weights_ok sg wt -> sg <> [] ->
+  (forall l, (1 <= l <= 5)%Z -> level_peaks scale_u scale_w sg wt l <> [] ->
+     (2 <= length (level_peaks scale_u scale_w sg wt l))%nat /\
+     level_no_pass scale_u scale_w pvals sg wt q l /\ absorb l = false) ->
+  let n := Zlength_nat sg in
+  let r := haar_seg scale_u scale_w pvals absorb sg wt q in
+  hr_breaks r = [] /\ hr_start r = [0%Z] /\ hr_end r = [(n - 1)%Z] /\ hr_size r = [n] /\
+  exists m, hr_mean r = [m] /\ Qabs (m - c) <= eps.
+Proof. exact noisy_flat_seg_fallback. Qed.
+
+(* the regime is inhabited: with no passing p-value (empty p-value list) the noisy step of C11_noise_step_example is
+   found at 80 when the fallback is absorbed and lost when it is not *)
+Example C11_noise_fallback_example :
+  let noise := map (fun i => match (i mod 3)%nat with O => 1 # 8 | S O => - (1 # 8) | _ => 1 # 16 end) (seq 0 160) in
+  let sg := map (fun p => Qred (fst p + snd p)) (combine (step_signal 0 1 80 160) noise) in
+  let su := fun _ : Z => 2 in
+  let pv := fun _ : Z => @nil Q in
+  (forall l, In l [1; 2; 3; 4; 5]%Z ->
+     level_no_pass su su pv sg None (1 # 10000) l /\ (2 <= length (level_peaks su su sg None l))%nat) /\
+  hr_breaks (haar_seg su su pv (fun _ => true) sg None (1 # 10000)) = [80%Z] /\
+  hr_breaks (haar_seg su su pv (fun _ => false) sg None (1 # 10000)) = [].
+Proof.
+  cbv zeta. split.
+  - intros l Hl. cbn [In] in Hl.
+    repeat (destruct Hl as [<-|Hl]; [split; [vm_compute; reflexivity|vm_compute; lia]|]). destruct Hl.
+  - split; vm_compute; reflexivity.
+Qed.
+
+(* Unequal weights, the "within d" inequality (tent slope against the noise at both ends).  Weights anywhere in
+   [wmin, wmax] with 0 < wmin (the property's weights: wmin = 1/2, wmax = 1).  Inside its support the weighted
+   tent of C11_clean_step_weighted is at most  1 - |k - t| wmin / (h wmax)  (each bin between k and t carries at
+   least wmin of a window whose weight is at most h wmax), the noise moves a value by at most 2 eps sqrt(h/2), so
+     4 h eps wmax < d D wmin   (1 <= d <= h)
+   puts every position at distance >= d strictly below the value at t: the maximum of |conv| lies within d - 1
+   bins of t.  With weights in [1/2, 1]: 8 h eps < d D -- level 1 (h = 2), d = 1: eps < D / 16 gives the maximum
+   exactly at t; level 5 (h = 32), d = 6 (within 5 bins): eps < 3 D / 128. *)
+From CNV Require Import Proofs.HaarNoiseW.
+Theorem C11_noise_peak_within_d_weighted :
+  forall (a b : Q) (t n : nat) (w sg : list Q) (eps : Q) (h : Z) (scale wmin wmax : Q) (d : Z),
+  noise_within eps (step_signal a b t n) sg -> length w = n -> 0 < wmin -> weights_between wmin wmax w ->
+  0 < scale -> (1 <= h <= Z.of_nat t)%Z -> (Z.of_nat t + h <= Z.of_nat n)%Z ->
+  (1 <= d <= h)%Z -> 4 * inject_Z h * eps * wmax < inject_Z d * Qabs (b - a) * wmin ->
+  forall k, (0 <= k < Z.of_nat n)%Z -> (d <= Z.abs (k - Z.of_nat t))%Z ->
+    Qabs (qnth (haar_conv sg (Some w) h scale) k) < Qabs (qnth (haar_conv sg (Some w) h scale) (Z.of_nat t)).
+Proof. exact noisy_step_weighted_d. Qed.
+
+(* the slope of the clean weighted tent on its own *)
+Theorem C11_weighted_tent_slope : forall (w : list Q) (t n : nat) (h : Z) (wmin wmax : Q),
+  length w = n -> 0 < wmin -> weights_between wmin wmax w ->
+  (1 <= h <= Z.of_nat t)%Z -> (Z.of_nat t + h <= Z.of_nat n)%Z ->
+  forall k, (0 <= k < Z.of_nat n)%Z ->
+  0 <= weighted_tent w (Z.of_nat t) h k /\
+  weighted_tent w (Z.of_nat t) h k
+  <= 1 - inject_Z (Z.min h (Z.abs (k - Z.of_nat t))) * (wmin / (inject_Z h * wmax)).
+Proof. exact wtent_bounds. Qed.
+
+Example C11_noise_weighted_example :
+  weights_between (1 # 2) 1 [1; 1 # 2; 3 # 4; 1] /\ 4 * inject_Z 2 * (1 # 100) * 1 < inject_Z 1 * Qabs (1 - 0) * (1 # 2).
+Proof.
+  split; [|vm_compute; reflexivity].
+  unfold weights_between. repeat (apply Forall_cons; [split; vm_compute; discriminate|]). apply Forall_nil.
+Qed.
